@@ -300,9 +300,26 @@ class _ClassProxy:
         # write-protected argument by reference would follow the caller's later updates of its buffer)
         if cls.__name__ in BY_REFERENCE_CLASSES:
             priv = lambda x: _np.array(x) if isinstance(x, _np.ndarray) else x
-        else:
-            priv = lambda x: x
-        return _pool.obj(key, lambda: cls(*[priv(x) for x in a], **{n: priv(x) for n, x in k.items()}))
+            return _pool.obj(key, lambda: cls(*[priv(x) for x in a], **{n: priv(x) for n, x in k.items()}))
+
+        def build():
+            # the caller's buffer, handed over as a write-protected view, and reused by the caller for something else as
+            # soon as the constructor has returned: an object that copies what it is given does not notice
+            bufs = []
+
+            def ro(x):
+                if not isinstance(x, _np.ndarray) or x.size == 0:
+                    return x
+                b = _np.array(x)
+                bufs.append(b)
+                v = b.view()
+                v.flags.writeable = False
+                return v
+            o = cls(*[ro(x) for x in a], **{n: ro(x) for n, x in k.items()})
+            for b in bufs:
+                b[...] = 77 if b.dtype != bool else True
+            return o
+        return _pool.obj(key, build)
 
     def __getattr__(self, name):
         return getattr(self._cls, name)
